@@ -298,11 +298,11 @@ class TlSchemas:
                             raise TlError(f'vector length {length} exceeds the {len(data) - i} bytes left')
                         result[field] = []
                         for _ in range(length):
-                            if sch:
-                                deser, j = self.deserialize(data[i:], False, sch.args)
-                            elif subtype in self.base_types:  # (vector int), (vector int256), (vector bytes) ...
+                            if subtype in self.base_types:  # (vector int), (vector int256), (vector bytes) ...
                                 deser, j = self.deserialize(data[i:], False, {'_': subtype})
                                 deser = deser['_']
+                            elif sch:
+                                deser, j = self.deserialize(data[i:], False, sch.args)
                             else:
                                 deser, j = self.deserialize(data[i:], True)
 
